@@ -9,3 +9,5 @@ import (
 
 // The free-running (-race) build has no instrumented copy of util/channels; the pipe is exercised through BreadthFirst.
 func pipeScenarios(tier core.Tier) []*sched.Scenario { return nil }
+
+func largeBacklogScenario(n int) *sched.Scenario { return nil }
